@@ -141,7 +141,7 @@ def x_process_state():
                 break
         j += 1
     body = io[i:j]
-    names = sorted({n for _, n, _ in stateful} | {n for _, n, _, _ in inv})
+    names = sorted({n for _, n, _ in stateful})
     new2_reads = sorted({n for n in names if re.search(r"\b" + n + r"\b", body)})
 
     def row(r, n, t, c):
@@ -156,7 +156,7 @@ def processStatics : List (String × String × String × String) := [
 /-- the items that outlive a context AND can change (all reviewed; a new one breaks the translator) -/
 def processStateful : List (String × String) := [{", ".join("(" + _lean_str(r) + ", " + _lean_str(n) + ")" for r, n, _ in stateful)}]
 
-/-- the process-wide items named in the body of `chewing_new2` -/
+/-- the stateful process-wide items named in the body of `chewing_new2` (immutable tables do not count) -/
 def new2Statics : List String := [{", ".join(_lean_str(n) for n in new2_reads)}]
 
 /-- number of source files scanned -/
